@@ -191,3 +191,14 @@ void h_init_shutdown (void)
 	OBL (g_spin_free == live_spin && g_key_free == live_key, "a second shutdown releases nothing again");
 	if (live_spin && live_key) CANARY ("both created"); if (!live_key) CANARY ("key allocation failed");
 }
+
+/* ---- the destructor of the library's own "current thread" slot (runs at thread exit): it drops exactly the thread's own
+ * reference -- one atomic decrement, the handle released only if that was the last reference, whoever created the handle */
+void h_cleanup (void)
+{
+	reset (); THR *t = mk_thr (); _Bool ours = t->base.ours == TRUE; _Bool had_name = t->base.name != NULL;
+	pp_uthread_cleanup (t);
+	OBL (g_decs == 1 && g_incs == 0, "thread exit drops exactly one reference (one atomic decrement)");
+	if (g_last) { OBL (g_frees == 1 + (had_name ? 1 : 0) && g_free_internal == (ours ? 1u : 0u), "last reference: released exactly once"); CANARY ("last reference"); }
+	else { OBL (g_frees == 0 && g_free_internal == 0, "a handle somebody still references survives the exit of its thread"); CANARY ("other references remain"); }
+}
